@@ -342,6 +342,9 @@ def gen_scenario(rng, plain=False):
         if (plutus and not bad(0.05)) or (not plutus and bad(0.05)):
             r = new_rdm(0)
         free.append(['sinput', uid, src, dsup, r, dform])
+        if rng.random() < 0.12:                                 # the script UTxO is also swept up by a plain add_input
+            free.append(['input', uid])
+            S['distinct_objects'] = True
         if dsup is not None and dmode == 'hash+':
             supplied_datums.append((dcbor, dform))
         if smode == 'wit' and plutus:
